@@ -30,7 +30,7 @@ BOUNDS = {
              'nmean 0/1/2/4; DIFF0-3, QLPC order 1-2 (concrete quantised coefficients), ZERO, BITSHIFT 1-2, QUIT; residual width 0-5 bits '
              'with 0-1 extra unary bit; <= 3 blocks x <= 4 samples per channel (<= 2^8 sign paths per program); every truncation point of 4 programs; '
              'bit-reader step: unread bits 0..32, mantissa widths 0,1,2,5,8,16,31,32, unary runs <= 3 (thorough: 13 widths, runs <= 8), any word contents',
-    'thorough': 'same grammar, 30 programs, QLPC order up to 3, up to 10 residuals per program',
+    'thorough': 'same grammar, 54 programs (incl. a grid of predictor order x residual width 1 or 3 bits x nmean x version), QLPC order up to 3',
 }
 OUTSIDE = ['streams longer than the bound; nskip > 0; unsigned / 8-bit linear sample types (do not occur in SPHERE files)',
            'int32 overflow inside the decoder for out-of-range streams (values here stay below 2^20)',
@@ -461,10 +461,10 @@ def programs(tier):
     add('v2 blocksize change mid-stream, then predictors that use the wrapped history', dict(nmean=0, blocksize=4),
         lambda: [('diff', 1, 1, _res_mixed('a', 4, 1, 2)), ('blocksize', 2), ('diff', 2, 1, _res('b', 2, 1)), ('diff', 3, 1, _res('c', 2, 1)), ('diff', 1, 1, _res('d', 2, 1)), ('quit',)])
     if tier == 'thorough':
-        add('v2 qlpc3 nmean4', dict(maxnlpc=3, nmean=4, blocksize=3), lambda: [('diff', 2, 2, _res('a', 3, 2)), ('qlpc', 1, [25, -14, 4], _res('b', 3, 1)), ('qlpc', 1, [-7], _res('c', 3, 1)), ('quit',)])
+        add('v2 qlpc3 nmean4', dict(maxnlpc=3, nmean=4, blocksize=3), lambda: [('diff', 2, 2, _res_mixed('a', 3, 2, 2)), ('qlpc', 1, [25, -14, 4], _res_mixed('b', 3, 1, 2)), ('qlpc', 1, [-7], _res_mixed('c', 3, 1, 2)), ('quit',)])
         add('v2 2ch qlpc bitshift', dict(nchan=2, maxnlpc=1, nmean=1, blocksize=2), lambda: [('bitshift', 1), ('diff', 1, 1, _res('a', 2, 1)), ('qlpc', 1, [9], _res('b', 2, 1)),
                                                                                            ('zero',), ('diff', 0, 1, _res('c', 2, 1)), ('quit',)])
-        for order, resn, nm, ver in itertools.product((0, 1, 2, 3), (0, 3), (0, 4), (1, 2)):
+        for order, resn, nm, ver in itertools.product((0, 1, 2, 3), (0, 2), (0, 4), (1, 2)):
             add('grid diff%d r%d nmean%d v%d' % (order, resn, nm, ver), dict(version=ver, nmean=nm, blocksize=2),
                 (lambda order=order, resn=resn: [('diff', 1, 2, _res('a', 2, 2)), ('diff', order, resn, _res('b', 2, resn)), ('diff', order, resn, _res('c', 2, resn)), ('quit',)]))
     return P
